@@ -504,6 +504,41 @@ def r6_no_undefined_names(run):
             run.holds("R6", modname, "no undefined global names", mi.relpath)
 
 
+def r7_mapping_request_scope(run):
+    run.rule("R7", "a NameID mapping request is answered with an existing "
+             "identifier only when that identifier's format and SPNameQualifier "
+             "equal the ones of the request's policy (an absent qualifier "
+             "matches only unqualified identifiers): no SP obtains the "
+             "identifier issued for another SP")
+    m = run.model
+    fi = m.func(ID + "handle_name_id_mapping_request")
+    cfg = cfg_of(fi, m)
+    org = Origins(cfg, transparent={"decode": None})
+    n = 0
+    for r in cfg.by_kind("return"):
+        v = r.ast.value
+        if v is None:
+            continue
+        got = org.of(v, r.id)
+        stored = [a for a in got if a.kind == "call" and
+                  (a.text == "decode" or a.text.endswith("find_nameid") or
+                   a.text.endswith("match_local_id"))]
+        if not stored:
+            continue
+        n += 1
+        fs = facts(cfg, r.id)
+        vt = unparse(v)
+        ok = all(Q("%s.%s == name_id_policy.%s" % (vt, f, f)) in fs
+                 for f in ("format", "sp_name_qualifier"))
+        run.check(ok, "R7", "%s::%s" % (fi.qual, norm_text(r.ast)),
+                  "returned only under equality of format and sp_name_qualifier "
+                  "with the policy",
+                  "a stored identifier (%s) is returned under %s: the "
+                  "identifier of another SP can be handed to the requester" %
+                  (sorted(a.text for a in stored), sorted(fs)), fi.loc(r.ast))
+    run.floor("R7", "returns of a stored identifier", n, 1)
+
+
 def check(run):
     run.explanation = (
         "C18: ownership of the identifier map (who writes it) and the pairing "
@@ -520,3 +555,4 @@ def check(run):
     r4_persistent_stability(run)
     r5_manage_name_id(run)
     r6_no_undefined_names(run)
+    r7_mapping_request_scope(run)
